@@ -17,10 +17,12 @@ def default_bound(defs):
     return "default=%d" % (max(defs["VERIF_LIST_CAP"], defs["VERIF_VEC_CAP"], defs["VERIF_KEY_MAX"], defs.get("VERIF_SET_CAP", 0), defs.get("VERIF_QUEUE_CAP", 0), defs.get("VERIF_STR_CAP", 0), defs.get("VERIF_FILE_CAP", 0)) + 2)
 
 
-def graph_bounds(defs):
+def graph_bounds(defs, und=None):
     """per-loop unwinding bounds for harnesses over the graph classes: edge traversals visit every list entry and skip every vertex"""
     nm, dup = defs["NM"], defs.get("DUP", 1)
-    e = nm * nm * dup + nm + 2
+    if und is None:
+        und = defs.get("UND", 0)
+    e = (nm * (nm + 1) // 2 * dup + 2) if und else (nm * nm * dup + nm + 2)
     names = ["harness", "getInDegree", "getInDegrees", "getAdjacencyMatrix", "getReversedGraph", "getDirectedGraph", "getOutDegrees", "writeTextEdgeList", "writeBinaryEdgeList", "edge_walk"]
     it = "operator++#0&Undirected=%d,operator++=%d,begin=%d," % (nm * nm * dup + 2, nm + 2, nm + 2)
     return it + ",".join("%s=%d" % (k, e) for k in names) + ",unordered_map=%d," % (defs["VERIF_KEY_MAX"] ** 2 + 2) + default_bound(defs)
@@ -460,6 +462,55 @@ PROPS["C08"] = {"gen": c08,
     "outside": "graphs above the bounds; the six derived classes re-export the same two iterator templates and are covered only through them",
     "explanation": "Whole traversals on small graphs, plus the inductive decomposition: begin() is the first valid position, one ++ from any valid position reaches the next valid position (or end()), and every edge owns exactly one valid position.",
     "assumptions": ["states satisfy RI_dir / RI_und (with duplicates where stated)"]}
+
+
+CONV_Q = {0: "reversed", 1: "reversed-twice", 2: "getDirectedGraph", 3: "undirected-from-directed", 4: "und-dir-und", 10: "ctor-DirectedGraph", 11: "ctor-UndirectedGraph", 12: "ctor-LabeledDirected", 13: "ctor-LabeledUndirected",
+          14: "ctor-DirectedMultigraph", 15: "ctor-UndirectedMultigraph", 16: "ctor-DirectedWeighted", 17: "ctor-UndirectedWeighted"}
+
+
+def conv_ob(q, n, k=3, cont=0, **kw):
+    defs = caps(n, n)
+    defs.update({"Q": q})
+    if q >= 10:
+        defs.update({"SEQK": k, "CONT": cont, "VERIF_VEC_CAP": max(n, k), "VERIF_LIST_CAP": max(n + 1, k)})
+    ob = {"id": "C09/%s/n%d%s" % (CONV_Q[q], n, ("-k%d-%s" % (k, "vector" if cont else "list")) if q >= 10 else ""), "src": "conv.cpp", "defs": defs, "bounds": graph_bounds(defs, und=(q in (2, 4)))}
+    if q in (16, 17):
+        ob["compile_failure_is_violation"] = True
+    ob.update(kw)
+    return ob
+
+
+def c09(tier):
+    obs = []
+    for q in (0, 2, 3):
+        for n in ((0, 2, 3) if tier == "quick" else (0, 1, 2, 3, 4)):
+            if q == 2 and n >= 3 and tier == "quick":
+                continue      # undirected whole-graph traversal at 3 vertices: thorough tier
+            if q == 2 and n >= 4:
+                continue
+            kw = {"optional_reach": [""]} if n < 3 else {}
+            if n >= 3:
+                kw.update(timeout=3000 if tier == "thorough" else 300, mem_gb=12)
+            obs.append(conv_ob(q, n, **kw))
+    for q in (1, 4):
+        for n in (((0, 2) if q == 1 else (0, 1)) if tier == "quick" else ((0, 1, 2, 3) if q == 1 else (0, 1, 2))):
+            obs.append(conv_ob(q, n, optional_reach=[""] if n < 2 else [], timeout=3000 if tier == "thorough" else 300, mem_gb=12 if n >= 2 else 4))
+    for q in (10, 11, 12, 13, 14, 15, 16, 17):
+        for cont in (0, 1):
+            if tier == "quick":
+                obs.append(conv_ob(q, 3, 3, cont))
+            else:
+                obs.append(conv_ob(q, 3, 4, cont))
+                obs.append(conv_ob(q, 4, 3, cont))
+    return obs
+
+
+PROPS["C09"] = {"gen": c09,
+    "bounds": {"quick": "getReversedGraph / getDirectedGraph / undirected-from-directed on every labelled graph of 0, 2, 3 vertices (labels from 4 values); double reversal and und->dir->und via operator== on 0 and 2 vertices; edge-list constructors of all eight classes from std::list and std::vector of at most 3 (labelled/weighted/multi-) edges over vertex indices < 3",
+               "thorough": "0..4 vertices; identities up to 3 vertices; sequences of 4 edges, indices < 4"},
+    "outside": "graphs / sequences above the bounds; containers other than std::list and std::vector; copy construction and assignment are decided under C06",
+    "explanation": "Each conversion is run on an arbitrary valid labelled graph and its result compared, at an arbitrary pair, with the definition on the abstraction; constructors are compared with the abstraction obtained by adding the edges one at a time.",
+    "assumptions": ["states satisfy RI_dir / RI_und"]}
 
 
 def obligations(prop, tier):
